@@ -11,6 +11,13 @@ taddons.context()).  Two monitors, both at the boundary "arguments received by t
   independent splitter (vf/ref/c45_cmdline.split_ref: split at whitespace outside quotes) says how many
   arguments there are and, for bare words and fully quoted tokens, what they are.
 
+* ui_history (console prompt): the quote-built line is put into a real CommandEdit/CommandBuffer on the same master,
+  a random history of key presses that leaves the text identical is applied (tab / shift-tab completion at the end
+  or in the middle followed by retyping the cut-off rest, cursor movement, backspace + retype), then the buffer text
+  is executed on the master's CommandManager: the probe must receive exactly the original arguments, and
+  parse_partial/execute of that text must give the same result on a fresh CommandManager that never saw the UI
+  operations (no dependence on earlier operations on the same text).
+
 A violation is classified by comparing what the probe received with a model of the known defect mechanisms
 (vf/ref/c45_cmdline.predict_defects); if the model does not reproduce the observation the mechanism is None.
 """
@@ -26,21 +33,25 @@ PROPERTY = "C45"
 LEVEL = "exploration"
 ENGINE = "direct"
 TECHNIQUE = "differential run of the real command executor against a reference splitter / identity"
-BUDGET = {"quick": (9_000, 16), "thorough": (400_000, 200)}
+BUDGET = {"quick": (8_000, 16), "thorough": (400_000, 200)}
 WORKERS = {"quick": 2, "thorough": 16}
-REQUIRED = ["quoted_roundtrip", "raw_split.count", "raw_split.value"]
+REQUIRED = ["quoted_roundtrip", "raw_split.count", "raw_split.value", "ui_history.execute", "ui_history.fresh_manager_agrees"]
 RULE = (
-    "case = one command line for a probe command taking *args: str. 70%: 1-4 random strings (len<=8 pieces) over "
+    "case = one command line for a probe command taking *args: str (ui: also a fixed two-argument probe). 57%: 1-4 random strings (len<=8 pieces) over "
     "{letters, space, tab, CR, LF, ', \", backslash, 2-char escapes like \\n \\x22 \\u00e9, malformed \\x/\\u, e-acute, astral, "
-    "VT/NBSP/ideographic space, empty} each quoted with command_lexer.quote and joined by 1-3 blanks/tabs; 30%: raw tokens "
-    "(bare / quoted / word+quoted / unterminated) joined likewise. distinct = (workload, #args, set of character-class "
-    "features over all args, separator kind); non-trivial = some argument is empty or contains whitespace, a quote, a "
+    "VT/NBSP/ideographic space, empty} each quoted with command_lexer.quote and joined by 1-3 blanks/tabs; 28%: raw tokens "
+    "(bare / quoted / word+quoted / unterminated) joined likewise; 15%: a quote-built line edited in a real console CommandEdit by "
+    "1-8 text-preserving key-press steps (tab, shift-tab, left/right, home/end, backspace+retype, tab in the middle+retype) and then "
+    "executed from the buffer, compared also with a fresh CommandManager. distinct = (workload, #args, set of character-class "
+    "features over all args, separator kind / set of key-press step kinds); non-trivial = some argument is empty or contains whitespace, a quote, a "
     "backslash or a non-ASCII character (quoted workload) / some token is quoted or mixed (raw workload)"
 )
 ASSUMPTIONS = [
     "'the console's quoting rule' is mitmproxy.command_lexer.quote (what the console uses to build command lines)",
     "'unquoted whitespace' means space/tab/CR/LF outside a '...' or \"...\" region, a quote character opening a region wherever it occurs",
     "the executed command declares its arguments as str (the type used by almost all console commands)",
+    "console key presses that leave the prompt text identical (completion without candidates, cursor movement, delete+retype) must not "
+    "change what executing that text passes to the command",
 ]
 LEVEL_TEXT = (
     "Random exploration of argument strings and token shapes against the real CommandManager.execute path with a probe "
@@ -144,17 +155,83 @@ class Probe:
         self.calls.append(args)
 
 
+def add_probes(cm, probe):
+    def probe_cmd(*args: str) -> None:
+        probe(*args)
+
+    def probe_two(a: str, b: str) -> None:
+        probe(a, b)
+
+    cm.add("probe.cmd", probe_cmd)
+    cm.add("probe.two", probe_two)
+
+
 def make_manager():
     tctx = taddons.context()
     tctx.__enter__()
     cm = command.CommandManager(tctx.master)
     probe = Probe()
-
-    def probe_cmd(*args: str) -> None:
-        probe(*args)
-
-    cm.add("probe.cmd", probe_cmd)
+    add_probes(cm, probe)
+    add_probes(tctx.master.commands, probe)  # the manager the console prompt (CommandBuffer) talks to
     return tctx, cm, probe
+
+
+SIZE = (80,)
+UI_STEPS = ["tab", "shift tab", "tab tab", "left-right", "home-end", "backspace-retype", "mid-tab-retype", "delete-retype"]
+
+
+def ui_history(r, edit, line, first_arg_pos):
+    """Apply 1-8 key-press steps each of which leaves the prompt text identical. Returns the step kinds used."""
+    kinds = []
+    n = len(line)
+    for _ in range(r.choice([1, 1, 2, 3, 5, 8])):
+        k = r.choice(UI_STEPS)
+        kinds.append(k)
+        if k in ("tab", "shift tab"):
+            edit.keypress(SIZE, k)
+        elif k == "tab tab":
+            edit.keypress(SIZE, "tab")
+            edit.keypress(SIZE, r.choice(["tab", "shift tab"]))
+        elif k == "left-right":
+            m = r.randint(1, min(6, n))
+            for _ in range(m):
+                edit.keypress(SIZE, r.choice(["left", "ctrl b"]))
+            for _ in range(m):
+                edit.keypress(SIZE, r.choice(["right", "ctrl f"]))
+        elif k == "home-end":
+            edit.keypress(SIZE, r.choice(["home", "ctrl a"]))
+            edit.keypress(SIZE, r.choice(["end", "ctrl e"]))
+        elif k in ("backspace-retype", "delete-retype", "mid-tab-retype"):
+            if n <= first_arg_pos:
+                continue
+            pos = r.randint(first_arg_pos + 1, n)  # cursor position inside the argument part
+            back = min(n - pos, 10)
+            pos = n - back
+            for _ in range(back):
+                edit.keypress(SIZE, "left")
+            cur = edit.cbuf.cursor  # where the cursor really is
+            if k == "backspace-retype" and cur > first_arg_pos:
+                edit.keypress(SIZE, "backspace")
+                edit.keypress(SIZE, line[cur - 1])
+            elif k == "delete-retype" and cur < n:
+                edit.keypress(SIZE, "delete")
+                edit.keypress(SIZE, line[cur])
+            elif k == "mid-tab-retype":
+                edit.keypress(SIZE, r.choice(["tab", "shift tab"]))  # completes text[:cursor]; what follows the cursor may be cut off
+                done = edit.get_edit_text()
+                if done != line:
+                    if not line.startswith(done):
+                        return kinds  # completion changed the text: caller sees text != line
+                    edit.keypress(SIZE, "end")
+                    for ch in line[len(done):]:
+                        edit.keypress(SIZE, ch)
+        edit.keypress(SIZE, r.choice(["end", "ctrl e"]))  # every step ends with the cursor at the end of the text
+    return kinds
+
+
+def parse_snapshot(cm, text):
+    parts, remaining = cm.parse_partial(text)
+    return [(p.value, getattr(p.type, "__name__", str(p.type)), p.valid) for p in parts], [str(x) for x in remaining]
 
 
 def execute(cm, probe, line):
@@ -169,7 +246,7 @@ def execute(cm, probe, line):
     return tuple(probe.calls[0]), None
 
 
-def judge(ctx, monitor, line, expected, received, exc):
+def judge(ctx, monitor, line, expected, received, exc, extra=None):
     """expected: list of str|None (None = value unspecified, only the count is). Reports violations."""
     ok = exc is None and received is not None and len(received) == len(expected) and all(e is None or e == g for e, g in zip(expected, received))
     if ok:
@@ -184,7 +261,7 @@ def judge(ctx, monitor, line, expected, received, exc):
         elif not raises and received is not None and list(received) == pred[1:]:
             mechs = flags
             break
-    witness = {"line": line, "expected": expected, "received": received, "exc": repr(exc) if exc else None}
+    witness = {"line": line, "expected": expected, "received": received, "exc": repr(exc) if exc else None, **(extra or {})}
     if not mechs:
         ctx.violation(f"{monitor}-differs", witness, None)
     else:
@@ -193,12 +270,58 @@ def judge(ctx, monitor, line, expected, received, exc):
     return False
 
 
+def case_ui(ctx, r, tctx, probe):
+    from mitmproxy.tools.console.commander import commander
+
+    master_cm = tctx.master.commands
+    two = r.random() < 0.25
+    args = [gen_string(r) if r.random() < 0.5 else "".join(r.choice(PLAIN + [" ", "'", '"']) for _ in range(r.choice([0, 1, 2, 4]))) for _ in range(2 if two else r.choice([1, 1, 2, 3, 4]))]
+    cmd = "probe.two" if two else "probe.cmd"
+    sep = " " if r.random() < 0.8 else gen_sep(r)
+    line = sep.join(command_lexer.quote(x) for x in [cmd, *args])  # what console.command does to pre-fill the prompt
+    edit = commander.CommandEdit(tctx.master, line)
+    kinds = ctx.guard(ui_history, r, edit, line, len(cmd), what="ui keypress history")
+    f = set().union(*(features(a) for a in args))
+    if kinds is None:
+        ctx.case(("ui", "exception"), nontrivial=True)
+        return
+    text = edit.get_edit_text()
+    sig = ("ui", cmd, len(args), tuple(sorted(f & {"empty", "sp", "tab", "nl", "sq", "dq", "bs", "uni"})), tuple(sorted(set(kinds))))
+    sample = {"line": line, "args": args, "keys": kinds}
+    if text != line:
+        # not a text-preserving history after all (e.g. tab expansion of the lexer shows up in a completion): nothing to judge
+        ctx.count("ui_history.text_changed_skipped")
+        ctx.case(sig + ("text-changed",), nontrivial=False)
+        return
+    out = ctx.guard(execute, master_cm, probe, text, what=text)
+    if out is None:
+        ctx.case(sig, nontrivial=True, sample=sample)
+        return
+    received, exc = out
+    ctx.count("ui_history.execute")
+    judge(ctx, "ui_history", text, list(args), received, exc, extra={"keys": kinds})
+    # the same text on a CommandManager that never saw the UI operations
+    fresh = command.CommandManager(tctx.master)
+    add_probes(fresh, probe)
+    ctx.count("ui_history.fresh_manager_agrees")
+    snap_ui, snap_fresh = parse_snapshot(master_cm, text), parse_snapshot(fresh, text)
+    out2 = ctx.guard(execute, fresh, probe, text, what=text)
+    if snap_ui != snap_fresh:
+        ctx.violation("ui_history-parse-depends-on-earlier-operations", {"text": text, "keys": kinds, "after_ui": snap_ui, "fresh": snap_fresh}, None)
+    elif out2 is not None and (out2[0], type(out2[1])) != (received, type(exc)):
+        ctx.violation("ui_history-execute-depends-on-earlier-operations", {"text": text, "keys": kinds, "after_ui": [received, repr(exc)], "fresh": [out2[0], repr(out2[1])]}, None)
+    ctx.case(sig, nontrivial=True, sample=sample)
+
+
 def run(ctx):
     tctx, cm, probe = make_manager()
     try:
         for i in ctx.cases():
             r = ctx.rng
-            if r.random() < 0.7:
+            wl = r.random()
+            if wl < 0.15:
+                case_ui(ctx, r, tctx, probe)
+            elif wl < 0.72:
                 args = [gen_string(r) for _ in range(r.choice([1, 1, 2, 2, 3, 4]))]
                 seps = [gen_sep(r) for _ in args]
                 line = "probe.cmd" + "".join(s + command_lexer.quote(a) for s, a in zip(seps, args))
